@@ -546,15 +546,31 @@ def run_property(P, tier, seed):
         return 2
     okh, outh = build_harness(False)
     if not okh:
+        # the harness builds on the pinned tree: if it no longer compiles against /repo's current working tree the
+        # correspondence between model and implementation cannot be established any more
         log("harness build failed:\n" + outh[-4000:])
-        print("check broken: harness build failed (not a violation verdict)", file=sys.stderr)
-        return 2
+        rec = {"property": pid, "verdict": "the correspondence harness no longer builds against %s: the tie between the "
+               "model and the implementation cannot be checked, so the property is no longer shown to hold" % REPO,
+               "broken": "correspondence check (harness crate wfh does not compile against the current source)",
+               "compiler_output_tail": outh[-3000:]}
+        path = write_replay(pid, rec)
+        write_evidence(pid, {"property_id": pid, "tier": tier, "seed": seed, "level": "proof",
+                             "coverage": {"note": "harness did not build against the current source; no case was run",
+                                          "cases": 0},
+                             "assumptions": [], "wall_s": round(time.time() - t0, 2), "violations": 1})
+        print("VIOLATION property=%s replay=%s no-failing-input-found" % (pid, path))
+        return 1
     modes = P.get("modes") or [{"name": "debug", "env": {}, "release": False}]
     if any(m.get("release") for m in modes):
         okr, outr = build_harness(True)
         if not okr:
             log("harness release build failed:\n" + outr[-4000:])
-            return 2
+            rec = {"property": pid, "verdict": "the correspondence harness no longer builds (release) against %s" % REPO,
+                   "broken": "correspondence check (harness crate wfh, release profile)",
+                   "compiler_output_tail": outr[-3000:]}
+            path = write_replay(pid, rec)
+            print("VIOLATION property=%s replay=%s no-failing-input-found" % (pid, path))
+            return 1
 
     # cases: corpus first, then generated
     corpus = []
